@@ -44,7 +44,7 @@ class C03(Check):
                    'events after a boundary received on_error / on_completed are invisible to the subscriber (RxPY AutoDetachObserver) and are not judged']
     ANCHORS = ['rxsci/data/roll.py', 'rxsci/data/split.py', 'rxsci/data/time_split.py', 'rxsci/operators/group_by.py', 'rxsci/operators/tee_map.py',
                'rxsci/operators/multiplex.py', 'rxsci/state/with_store.py', 'rxsci/mux/muxobservable.py', 'rxsci/mux/muxconnectable.py']
-    REQUIRED_TAGS = ['depth>=3', 'empty-source', 'single-item']
+    REQUIRED_TAGS = ['depth>=3', 'empty-source', 'single-item', 'scale']
     REQUIRED_OBSERVED = ['boundary:' + k for k in KINDS] + ['events:create', 'events:next', 'events:completed', 'events:on_completed']
 
     def generate(self, rng, tier, shard, nshards):
@@ -58,6 +58,13 @@ class C03(Check):
                 ctx = gen_ctx(rng, o)
                 prog = [ctx] if rng.random() < 0.5 else [['group_by', 'mod:%d' % rng.randint(2, 4), [ctx]]]
                 yield {'prog': prog, 'items': gen.gen_items(rng, n=rng.choice([0, 1, 5, 20, 40]), sorted_=(ctx[0] == 'time_split'))}
+                continue
+            if k % 150 == 75:
+                # scale: windows of 257-400 items, 300-1000 groups, take/batch/lag 257+ on ~700 items
+                o = gen.GenOpts(max_depth=2, ctx_weight=8, tee_weight=2, allow_progress=False, no_streaming_mutation=True, scale=True,
+                                exclude_ops=('fvariance', 'fstddev'))
+                prog, _ = gen.gen_pipeline(rng, 'i', rng.randint(1, 3), o)
+                yield {'prog': prog, 'items': [rng.randint(0, 900) for _ in range(rng.choice([450, 900]))]}
                 continue
             depth = rng.choice([1, 2, 3, 3, 4])
             opts = gen.GenOpts(max_depth=depth, ctx_weight=8, tee_weight=4, allow_progress=False, no_streaming_mutation=True)
@@ -78,6 +85,8 @@ class C03(Check):
             out.tags.append('empty-source')
         if len(items) == 1:
             out.tags.append('single-item')
+        if len(items) >= 300:
+            out.tags.append('scale')
         out.tags += sorted(set(x for x in names if x in progs.CONTEXTS))
         if nctx >= 2 or (nctx >= 1 and len(items) <= 1):
             out.nontrivial = True
